@@ -222,6 +222,22 @@ PROPS = {
             dict(test="TestC04Prop", kind="rapid", checks={Q: 6, T: 250}, shards=16),
         ],
     ),
+    "C02": dict(
+        pkg="c02", level="exploration",
+        technique="stateful property-based testing (rapid) over the pair-setup message alphabet on 1..2 interleaved connections at handler level, honest and forged messages built by the reference controller, pairing-database snapshot oracle after every message",
+        level_text=("Generated message sequences (state-biased so that deep states are reached, but any message may follow any other) are posted to hc's /pair-setup handler; after every message the set of stored entity files must equal the snapshot before it "
+                    "unless the message is a genuine key exchange on a connection whose preceding verify was answered with an SRP proof that the reference controller verified - then exactly that (name, key) may appear. "
+                    "The honest sequence must complete (so 'never stores' cannot pass). Forged variants include sealing under the all-zero key, guessable keys, replay from the other connection, tampering, bad signatures."),
+        level_note="Trusted: refctl's SRP client, HKDF, sealing and Ed25519 (standard library). Handler panics are counted (C13 judges them) and treated as 'no response' here. Setup codes are arbitrary XXX-XX-XXX strings given directly to the device object.",
+        rule=("rapid histories of 1..12 messages over 32 message kinds (6 start, 11 verify, 12 key-exchange, 3 other variants) for random setup code, controller id and key seed. "
+              "Non-trivial: at least one key-exchange message sent after at least one verify message on the same connection. Distinct by (code, id, seed, history)."),
+        assumptions=["the attacker does not know the setup code; forged keys are derived only from public values"],
+        essential_classes=["exchange-genuine:accepted<-verify-right", "exchange-zero-key<-verify-A-zero", "exchange-zero-key<-verify-right", "exchange-replayed<-verify-right", "two-connections", "regress"],
+        jobs=[
+            dict(test="TestC02Regress", kind="plain"),
+            dict(test="TestC02Prop", kind="rapid", checks={Q: 60, T: 2500}, shards=16),
+        ],
+    ),
 }
 
 # reasons for properties not claimed yet (kept current while the framework is being built)
